@@ -13,6 +13,10 @@ impl Events {
     }
     /// Get the next [`Event`].
     pub fn next(&mut self) -> Option<Event> {
+        #[cfg(feature = "verif-hooks")]
+        if let Some(injected) = verif::next_injected() {
+            return injected;
+        }
         match event::poll(Duration::from_secs(0)) {
             Ok(true) => event::read().ok(),
             _ => None,
@@ -24,5 +28,38 @@ impl Events {
             Event::Key(ke) => Some(ke),
             _ => None,
         })
+    }
+}
+
+/// Key event injection for the headless driver (feature `verif-hooks`).
+#[cfg(feature = "verif-hooks")]
+pub mod verif {
+    use super::{Event, KeyEvent};
+    use std::cell::{Cell, RefCell};
+    use std::collections::VecDeque;
+
+    thread_local! {
+        static QUEUE: RefCell<VecDeque<KeyEvent>> = RefCell::new(VecDeque::new());
+        static HEADLESS: Cell<bool> = Cell::new(false);
+    }
+
+    /// From now on events come from the injection queue only.
+    pub fn set_headless(on: bool) {
+        HEADLESS.with(|h| h.set(on));
+    }
+
+    /// Queue a key event for the next call of `Events::next`.
+    pub fn inject(key: KeyEvent) {
+        QUEUE.with(|q| q.borrow_mut().push_back(key));
+    }
+
+    /// `Some(result)` if the terminal must not be asked.
+    pub(super) fn next_injected() -> Option<Option<Event>> {
+        let queued = QUEUE.with(|q| q.borrow_mut().pop_front());
+        match queued {
+            Some(key) => Some(Some(Event::Key(key))),
+            None if HEADLESS.with(|h| h.get()) => Some(None),
+            None => None,
+        }
     }
 }
